@@ -358,8 +358,8 @@ class Folder(FileSystemItemABC):
             return True
 
         if self.scan_countdown <= 0:
-            # scan one file per timestep
-            self.scan_countdown = self.scan_duration
+            # scan one file per timestep (a duration of 0 completes at the next timestep, like a duration of 1)
+            self.scan_countdown = max(1, self.scan_duration)
             self.sys_log.info(f"Scanning folder {self.name} (id: {self.uuid})")
         else:
             # scan already in progress
@@ -456,7 +456,8 @@ class Folder(FileSystemItemABC):
             self.deleted = False
 
         if self.restore_countdown <= 0:
-            self.restore_countdown = self.restore_duration
+            # a duration of 0 completes at the next timestep, like a duration of 1
+            self.restore_countdown = max(1, self.restore_duration)
             self.health_status = FileSystemItemHealthStatus.RESTORING
             self.sys_log.info(f"Restoring folder: {self.name} (id: {self.uuid})")
         else:
